@@ -30,6 +30,9 @@ class Prod:
     prec_sym: str | None = None     # %prec override
     # filled by Grammar
     prec: tuple = ("right", 0)
+    builtin: str | None = None      # sly-generated EBNF helper production: opt-some | opt-none | rep | rep-empty | many | many1 | item | choice
+    aliases: dict = field(default_factory=dict)   # generated symbol -> the symbols it stands for (sly _name_aliases)
+    nvals: int = 0
 
     def __str__(self):
         return f"{self.name} -> {' '.join(self.syms) if self.syms else '<empty>'}"
@@ -38,6 +41,8 @@ class Prod:
     def ret(self):
         """The returned expression of the action when the body is a single `return <expr>`
         (or `pass` => None constant); otherwise None."""
+        if self.func is None:
+            return None
         body = [s for s in self.func.body
                 if not (isinstance(s, ast.Expr) and isinstance(s.value, ast.Constant))]
         if len(body) == 1 and isinstance(body[0], ast.Return):
@@ -145,8 +150,46 @@ def extract_grammar(src: Source, lexer_tokens: dict[str, list], rel="language/gr
             # decorator applied bottom-up; func.rules = [*old, *rules[::-1]]; single decorator here
             for rule in rules[::-1]:
                 syms = rule.split()
-                if any(s in ("{", "}", "[", "]") or ("|" in s and not _quoted(s)) for s in syms):
-                    raise AnalysisError(f"{c.name}.{name}: EBNF grammar extensions are not supported: {rule!r}")
+                generated, alias_map = [], {}
+                # sly's EBNF extensions, expanded the way sly/yacc.py:_collect_grammar_rules does
+                guard = 0
+                while ("{" in syms) or ("[" in syms) or any("|" in s_ and not _quoted(s_) for s_ in syms):
+                    guard += 1
+                    if guard > 20:
+                        raise AnalysisError(f"{c.name}.{name}: EBNF rule too complex: {rule!r}")
+                    for i_, s_ in enumerate(syms):
+                        if s_ == "[":
+                            end = syms.index("]", i_)
+                            inner = syms[i_ + 1:end]
+                            if any(x in ("{", "[") or "|" in x for x in inner):
+                                raise AnalysisError(f"{c.name}.{name}: nested EBNF groups are not supported: {rule!r}")
+                            gen = f"_{len(prods) + len(generated)}_{'_'.join(inner)}_optional"
+                            generated.append((gen, tuple(inner), "opt-some", len(inner)))
+                            generated.append((gen, (), "opt-none", len(inner)))
+                            alias_map[gen] = list(inner)
+                            syms[i_:end + 1] = [gen]
+                            break
+                        if s_ == "{":
+                            end = syms.index("}", i_)
+                            inner = syms[i_ + 1:end]
+                            if any(x in ("{", "[") or "|" in x for x in inner):
+                                raise AnalysisError(f"{c.name}.{name}: nested EBNF groups are not supported: {rule!r}")
+                            base = f"_{len(prods) + len(generated)}_{'_'.join(inner)}"
+                            generated.append((f"{base}_repeat", (f"{base}_items",), "rep", len(inner)))
+                            generated.append((f"{base}_repeat", (), "rep-empty", len(inner)))
+                            generated.append((f"{base}_items", (f"{base}_items", f"{base}_item"), "many", len(inner)))
+                            generated.append((f"{base}_items", (f"{base}_item",), "many1", len(inner)))
+                            generated.append((f"{base}_item", tuple(inner), "item", len(inner)))
+                            alias_map[f"{base}_repeat"] = list(inner)
+                            syms[i_:end + 1] = [f"{base}_repeat"]
+                            break
+                        if "|" in s_ and not _quoted(s_):
+                            alts = s_.split("|")
+                            gen = f"_{len(prods) + len(generated)}_{'_'.join(alts)}_choice"
+                            for a_ in alts:
+                                generated.append((gen, (a_,), "choice", 1))
+                            syms[i_] = gen
+                            break
                 pname = name
                 if syms[1:2] in (["::="], [":"]):
                     pname, syms = syms[0], syms[2:]
@@ -157,7 +200,9 @@ def extract_grammar(src: Source, lexer_tokens: dict[str, list], rel="language/gr
                     prec_sym = syms[-1]
                     syms = syms[:-2]
                 syms = [s[1:-1] if _quoted(s) else s for s in syms]
-                prods.append(Prod(len(prods), pname, tuple(syms), fn, fn.lineno, mod.site(fn), prec_sym))
+                prods.append(Prod(len(prods), pname, tuple(syms), fn, fn.lineno, mod.site(fn), prec_sym, aliases=alias_map))
+                for gname, gsyms, kind, nv in generated:
+                    prods.append(Prod(len(prods), gname, tuple(gsyms), None, fn.lineno, mod.site(fn), None, builtin=kind, nvals=nv))
     seen = {}
     for p in prods:
         k = (p.name, p.syms)
